@@ -218,12 +218,16 @@ for pub, priv, params, ret in [
 # ---- the persisted-status invariant J (C09) and the status update ----------------------------------------
 define("JOBS", ["cl"], "val(cl._job_status).jobs")
 define("rank", ["s"], "(0 if s == JobState.NOT_SUBMITTED else (1 if s == JobState.SUBMITTED else 2))")
-define("J", ["cl"], """(
+# J in two parts: the counters, and the rest (finding F8 concerns the submitted counter only)
+define("J_COUNTS", ["cl"], """(
     0 <= cl._config.completed_jobs and cl._config.completed_jobs <= cl._config.submitted_jobs
-    and cl._config.submitted_jobs <= cl._config.num_jobs and cl._config.num_jobs == len(JOBS(cl))
-    and cl._config.completed_jobs == fold('n_done', JOBS(cl)) and cl._config.submitted_jobs == fold('n_sub', JOBS(cl))
+    and cl._config.submitted_jobs <= cl._config.num_jobs
+    and cl._config.completed_jobs == fold('n_done', JOBS(cl)) and cl._config.submitted_jobs == fold('n_sub', JOBS(cl)))""")
+define("J_REST", ["cl"], """(
+    cl._config.num_jobs == len(JOBS(cl))
     and forall(i, range(len(JOBS(cl))), implies(JOBS(cl)[i].state != JobState.NOT_SUBMITTED, empty(JOBS(cl)[i].blocked_by)))
     and distinct_job_names(cl))""")
+define("J", ["cl"], "(J_COUNTS(cl) and J_REST(cl))")
 
 UJ_DEFS = {
     "CFG": ([], "self._config"),
